@@ -89,7 +89,7 @@ PART_PATTERNS = {
     'iso_week'   : r"(?:[0-4]\d|5[0-3])",
     'us_week'    : r"(?:[0-4]\d|5[0-3])",
     'dom'        : r"(0[1-9]|[1-2][0-9]|3[0-1])",
-    'dom_short'  : r"([1-9]|[1-2][0-9]|3[0-1])",
+    'dom_short'  : r"([1-2][0-9]|3[0-1]|[1-9])",
     'doy'        : r"(?:[0-2]\d\d|3[0-5][0-9]|36[0-6])",
     'doy_short'  : r"(?:[0-2]\d\d|3[0-5][0-9]|36[0-6])",
     'MAJOR'      : r"\d+",
